@@ -2,7 +2,8 @@
    [exact] of a lemma proved in Res/LegacySortProofs.v, Res/ComposeProofs.v or Res/C11Gen.v.
    Models: Res/LegacySort.v (legacyIDSorter.Less as coded), Res/Compose.v (accumulation: resources lists,
    namePrefix/nameSuffix, id-collision check, sortOptions).  Tables: Gen/LegacyOrder.v, Gen/FieldSpecs.v. *)
-From KV Require Import Res.Compose Res.LegacySortProofs Res.ComposeProofs Res.C11Gen Gen.LegacyOrder Gen.FieldSpecs.
+From KV Require Import Res.Compose Res.LegacySortProofs Res.ComposeProofs Res.C11Gen Res.LabelNest Res.LabelNestProofs
+  Gen.LegacyOrder Gen.FieldSpecs.
 From Coq Require Import Sorting.Permutation.
 Open Scope string_scope.
 
@@ -202,3 +203,15 @@ Theorem C11_output_ids_distinct :
     accumulate cs pfx_fs sfx_fs pfx_skip sfx_skip t = Ok out -> NoDup (map r_cur out).
 Proof. exact accumulate_nodup. Qed.
 Print Assumptions C11_output_ids_distinct.
+
+(* ================= labels ================= *)
+
+(* Label layering (model Res/LabelNest.v: metadata.labels through the `labels:` entries and commonLabels of
+   nested layers).  Every output resource stems from a document (d, own labels) lying below some layers
+   (outermost first) and carries, for EVERY key k, the value of the outermost layer that sets k - inside one
+   layer commonLabels beats the `labels:` entries and a later entry beats an earlier one - else its own value. *)
+Theorem C11_label_nesting :
+  forall t d l, In (d, l) (lflat t) ->
+    exists own layers, loccurs t (d, own) layers /\ forall k, lookup k l = nest_lookup k layers own.
+Proof. exact label_nesting. Qed.
+Print Assumptions C11_label_nesting.
